@@ -59,24 +59,24 @@ def _lv(what, bound):
 
 META = {
  "C01": {"level": _lv("one real matching round from an arbitrary book, continuous trading, and rounds after the book was re-shaped.",
-                      "<= 4 resting orders (3+1 / 2+2) per round, <= 3 orders in continuous trading (thorough: 3+2, 2+3, 4; 7 resting orders on a side for limit-only books)."), "note": _N},
+                      "<= 4 resting orders (3+1 / 2+2) per round, <= 3 orders in continuous trading, <= 6 resting limit orders in any arrival order, 7-8 in heap-ordered arrival (thorough: 3+2, 2+3, 4; up to 12 resting orders in heap-ordered arrival)."), "note": _N},
  "C02": {"level": _lv("the real Order comparison operators on three arbitrary accepted orders (unbounded ints) and the fills of real rounds against the textual ranking.",
-                      "3 orders for the laws; books of <= 4 orders per side with up to 2 disturbing operations (thorough <= 7)."), "note": _N + "; the thorough tier cross-checks the comparison laws with CrossHair"},
+                      "3 orders for the laws; books of <= 4 orders per side with up to 2 disturbing operations, 5-6 limit orders in any arrival order, 7-8 in heap-ordered arrival (thorough <= 7 / <= 12)."), "note": _N + "; the thorough tier cross-checks the comparison laws with CrossHair"},
  "C03": {"level": _lv("the post-round predicate and absence of exceptions for real rounds from arbitrary books, along operation histories and around trading halts in real runs.",
                       "as C01/C04; market orders on both sides included."), "note": _N},
  "C04": {"level": _lv("operation histories on one real Market (every agent program within the length bound), refused operations, spoofed submissions through the real runner, time-to-live across sessions without placement/execution, volumes written by an event before acceptance.",
                       "<= 3 operations after an opening order, 2-3 orders accumulated while not running + 1 operation, fixed long expiry skeletons (thorough: 4 operations)."), "note": _N},
  "C05": {"level": _lv("real SequentialRunner runs with scripted agents; holdings compared with the endowment folded with the fill records at every callback, activation and at the end.",
-                      "<= 3 agents, <= 2 markets, <= 4 steps in 12 run families."), "note": _N},
+                      "<= 3 agents, <= 2 markets, <= 4 steps in 20 run families."), "note": _N},
  "C06": {"level": _lv("real runs with a per-step monitor of every public series, future queries at symbolic distance, session spans.",
                       "<= 3 sessions, <= 7 steps, chunk sizes shrunk to 3 (thorough: one 205-step run with the real chunks)."), "note": _N},
- "C07": {"level": _lv("a reference run in freshly imported pams against a repeated run after another simulation, with every global source and every set-of-strings order a solver variable (PARTIAL claim: see level_note).",
+ "C07": {"level": _lv("a reference run in freshly imported pams against a repeated run after another simulation, with every global source and every set-of-strings order a solver variable, string hashes and the decimal context differing between the runs (PARTIAL claim: see level_note).",
                       "two configurations, 2-4 seeds."),
          "note": _N + "; NOT covered: every seed / every configuration (the solver ranges over global sources and set orders, not seeds), bit-level determinism of MT19937/NumPy/SciPy, hash-seed effects other than set iteration order"},
  "C08": {"level": _lv("operation histories with a reference book and a price state machine written from the statement.",
                       "as C04, including switches between running and not running."), "note": _N},
  "C09": {"level": _lv("real runs over the session flag / cap / rate matrix with scripted normal and high-frequency agents and every built-in event.",
-                      "<= 2 sessions, <= 3 normal + 2 HFT agents, one order per consultation."), "note": _N},
+                      "<= 2 sessions, <= 3 normal + 2-3 HFT agents, one or two items per consultation, <= 2 markets."), "note": _N},
  "C10": {"level": _lv("the logger's processed stream compared with the callbacks as ground truth (counts, identity, fields, order, framing, timeliness).",
                       "as C05."), "note": _N},
  "C11": {"level": _lv("callbacks of scripted agents compared with order objects, fill records and holdings at callback time.",
@@ -90,14 +90,14 @@ META = {
  "C15": {"level": _lv("the rule's real clipping function over all prices and rates, and real runs with target and non-target markets.",
                       "2 markets, 2 agents (+1 HFT), <= 2 active steps."), "note": _N + "; one known finding (rule + order-mistake shock on one market) is listed in known_findings.json"},
  "C16": {"level": _lv("real runs with a halt rule: fills only on running markets, halt decision against the moving line, duration, resumption, session boundaries.",
-                      "halt length 1-2, <= 5 steps, <= 3 agents, <= 2 halts."), "note": _N},
+                      "halt length 1-2, <= 5 steps (thorough 6), <= 3 agents, <= 2 halts, <= 2 target markets."), "note": _N},
  "C17": {"level": _lv("real IndexMarket computations as polynomial identities over symbolic component prices; recorded fundamentals in real runs.",
                       "2-3 components, concrete unequal shares (thorough: symbolic shares for 2 components)."), "note": _N},
  "C18": {"level": _lv("real json_extends over every inheritance graph, real _setup over counts and ranges, real JsonRandom with symbolic draws (exact reals and IEEE binary64), real Session.setup, find_class.",
                       "3 entries x 3 keys (thorough 4 x 2), counts and ranges of length 1-4, nine (a,b) pairs."), "note": _N + "; one known finding (uniform upper end reached by rounding) is listed in known_findings.json"},
- "C19": {"level": _lv("the real _add_order on any positive real price for twelve tick sizes, both sides, and the same price on the opposite side; submissions through the real runner to two markets with different ticks.",
+ "C19": {"level": _lv("the real _add_order on any positive real price for fifteen tick sizes, both sides (also marketable on arrival), and the same price on the opposite side; submissions through the real runner to two markets with different ticks.",
                       "exact reals; ticks listed in the evidence."), "note": _N},
- "C20": {"level": _lv("the real submit_orders of the four built-in agents on symbolic market states.",
+ "C20": {"level": _lv("the real submit_orders of the built-in agents on symbolic market states, including markets the agent cannot access and several agents of one population.",
                       "windows <= 3, <= 3 markets / components, two polls per step."), "note": _N + "; log/exp/gauss are contract stubs (exp > 0, log defined on positives)"},
 }
 
